@@ -16,6 +16,8 @@ sys.path.insert(0, VERIF)
 
 
 def main():
+    import signal
+    signal.alarm(2400)      # never hang a batch run: a stuck evaluation is killed (and shows up as a missing result line)
     d = os.path.abspath(sys.argv[1])
     name = os.path.basename(d.rstrip("/"))
     patch = os.path.join(d, "patch.diff")
